@@ -122,6 +122,9 @@ int _GD_TokToNum(const char *restrict token, int standards, int pedantic,
   char *endptr = NULL;
   gd_type_t rt = GD_UNKNOWN, it = GD_UNKNOWN;
   const int base = (!pedantic || standards >= 9) ? 0 : 10;
+  /* a zero written with a minus sign is the floating-point negative zero */
+  const int neg_re = (token[0] == '-');
+  int neg_im = 0;
 
   dtrace("\"%s\", %i, %i, %p, %p, %p, %p", token, standards, pedantic, re, im,
       u, i);
@@ -147,7 +150,10 @@ int _GD_TokToNum(const char *restrict token, int standards, int pedantic,
     errno = 0;
     dr = gd_strtod(token, &endptr);
 
-    if (!errno && (*endptr == '\0' || *endptr == ';'))
+    /* ERANGE with a finite result is an underflow to a subnormal number (or
+     * to zero), which is a perfectly good value */
+    if ((!errno || (errno == ERANGE && dr > -HUGE_VAL && dr < HUGE_VAL)) &&
+        (*endptr == '\0' || *endptr == ';'))
       rt = GD_FLOAT64;
   }
 
@@ -163,6 +169,7 @@ int _GD_TokToNum(const char *restrict token, int standards, int pedantic,
   } else {
     /* convert imaginary part the same way */
     token = endptr + 1;
+    neg_im = (token[0] == '-');
     errno = 0;
     ii = gd_strtoll(token, &endptr, base);
     if (!errno && *endptr == '\0')
@@ -180,7 +187,8 @@ int _GD_TokToNum(const char *restrict token, int standards, int pedantic,
       errno = 0;
       di = gd_strtod(token, &endptr);
 
-      if (!errno && *endptr == '\0')
+      if ((!errno || (errno == ERANGE && di > -HUGE_VAL && di < HUGE_VAL)) &&
+          *endptr == '\0')
         it = (di == 0) ? GD_NULL : GD_FLOAT64;
     }
 
@@ -201,13 +209,13 @@ int _GD_TokToNum(const char *restrict token, int standards, int pedantic,
     if (rt == GD_FLOAT64)
       *re = dr;
     else if (rt == GD_INT64)
-      *re = ir;
+      *re = (ir == 0 && neg_re) ? -0.0 : (double)ir;
     else
       *re = ur;
 
     if (im) { /* complex */
       if (it == GD_NULL)
-        *im = 0;
+        *im = neg_im ? -0.0 : 0;
       else if (it == GD_FLOAT64)
         *im = di;
       else if (it == GD_INT64)
@@ -361,12 +369,54 @@ static int _GD_SetField(DIRFILE *restrict D,
 
 /* Returns a newly malloc'd string containing the scalar field name, or NULL on
  * numeric literal or error */
+/* Build the field code of a scalar parameter.  A CARRAY index (<n>) is split
+ * off first, so that the fragment's suffix ends up on the field name and not
+ * after the index (where it would be cut away again). */
+static char *_GD_ScalarCode(DIRFILE *restrict D,
+    const struct parser_state *restrict p, int me, const char *restrict token,
+    int *restrict index)
+{
+  char *copy, *lt, *ptr;
+
+  dtrace("%p, %p, %i, \"%s\", %p", D, p, me, token, index);
+
+  *index = -1;
+  copy = _GD_Strdup(D, token);
+  if (copy == NULL) {
+    dreturn("%p", NULL);
+    return NULL;
+  }
+
+  /* look for < > delimeters */
+  for (lt = copy; *lt; ++lt) {
+    if (*lt == '<') {
+      char *endptr = NULL;
+
+      *lt = '\0';
+      *index = (int)strtol(lt + 1, &endptr, 0);
+
+      if (*endptr != '>') {
+        /* invalid CARRAY index, undo the elision */
+        *lt = '<';
+        *index = -1;
+      } else
+        break;
+    }
+  }
+
+  ptr = _GD_InputCode(D, p, me, copy);
+  free(copy);
+
+  dreturn("\"%s\" (%i)", ptr, *index);
+  return ptr;
+}
+
 static char *_GD_SetScalar(DIRFILE *restrict D,
     const struct parser_state *restrict p, const char *restrict token,
     void *restrict data, gd_type_t type, int me, int *restrict index,
     unsigned *restrict flags)
 {
-  char *lt, *ptr;
+  char *ptr;
   int i;
 
   dtrace("%p, %p, \"%s\", %p, 0x%X, %p, %p", D, p, token, data, type, index,
@@ -380,12 +430,13 @@ static char *_GD_SetScalar(DIRFILE *restrict D,
 
     /* _GD_TokToNum can't return -2 for complex return type */
     if (i == -1) { /* assume it's a field name */
-      ptr = _GD_InputCode(D, p, me, token);
+      ptr = _GD_ScalarCode(D, p, me, token, index);
       if (D->error) {
         dreturn("%p", NULL);
         return NULL;
       }
-      goto carray_check;
+      dreturn("\"%s\" (%i)", ptr, *index);
+      return ptr;
     }
 
     /* flag */
@@ -412,12 +463,13 @@ static char *_GD_SetScalar(DIRFILE *restrict D,
       dreturn("%p", NULL);
       return NULL;
     } else if (i == -1) { /* assume it's a field name */
-      ptr = _GD_InputCode(D, p, me, token);
+      ptr = _GD_ScalarCode(D, p, me, token, index);
       if (D->error) {
         dreturn("%p", NULL);
         return NULL;
       }
-      goto carray_check;
+      dreturn("\"%s\" (%i)", ptr, *index);
+      return ptr;
     }
 
     /* store the number */
@@ -438,12 +490,13 @@ static char *_GD_SetScalar(DIRFILE *restrict D,
       dreturn("%p", NULL);
       return NULL;
     } else if (i == -1) { /* assume it's a field name */
-      ptr = _GD_InputCode(D, p, me, token);
+      ptr = _GD_ScalarCode(D, p, me, token, index);
       if (D->error) {
         dreturn("%p", NULL);
         return NULL;
       }
-      goto carray_check;
+      dreturn("\"%s\" (%i)", ptr, *index);
+      return ptr;
     }
 
     if (type == GD_INT64)
@@ -467,12 +520,13 @@ static char *_GD_SetScalar(DIRFILE *restrict D,
       dreturn("%p", NULL);
       return NULL;
     } else if (i == -1) { /* assume it's a field name */
-      ptr = _GD_InputCode(D, p, me, token);
+      ptr = _GD_ScalarCode(D, p, me, token, index);
       if (D->error) {
         dreturn("%p", NULL);
         return NULL;
       }
-      goto carray_check;
+      dreturn("\"%s\" (%i)", ptr, *index);
+      return ptr;
     }
 
     if (type == GD_UINT64)
@@ -489,28 +543,6 @@ static char *_GD_SetScalar(DIRFILE *restrict D,
 
   dreturn("%p", NULL);
   return NULL;
-
-carray_check:
-  /* look for < > delimeters */
-  *index = -1;
-  for (lt = ptr; *lt; ++lt) {
-    if (*lt == '<') {
-      char *endptr = NULL;
-
-      *lt = '\0';
-      *index = (int)strtol(lt + 1, &endptr, 0);
-
-      if (*endptr != '>') {
-        /* invalid CARRAY index, undo the elision */
-        *lt = '<';
-        *index = -1;
-      } else
-        break;
-    }
-  }
-
-  dreturn("\"%s\" (%i)", ptr, *index);
-  return ptr;
 }
 
 /* _GD_ParseRaw: parse a RAW entry in the format file
